@@ -188,13 +188,18 @@ func genC20(t *rapid.T) c20Case {
 	if thorough() && rapid.IntRange(0, 5).Draw(t, "many") == 0 {
 		c.S = rapid.IntRange(41, 300).Draw(t, "s")
 	}
-	switch rapid.IntRange(0, 3).Draw(t, "nclass") {
+	switch rapid.IntRange(0, 4).Draw(t, "nclass") {
 	case 0:
 		c.N = 20000
 	case 1:
 		c.N = 1000000
 		if c.S > 60 {
 			c.S = 60
+		}
+	case 2: // sizes that are exact multiples of common block sizes (4 KiB, 64 KiB, 1 MiB)
+		c.N = 8 * rapid.SampledFrom([]int{512, 4096, 8192, 65536, 65536 * 2, 65536 * 3, 1 << 20, 65536 + 1, 65536 - 1}).Draw(t, "blocky")
+		if c.S > 12 {
+			c.S = 12
 		}
 	default:
 		c.N = 8 * rapid.IntRange(1, 10000).Draw(t, "nbytes")
